@@ -254,6 +254,10 @@ func (c *Ctx) effects(ins ssa.Instruction, l *Loop, top bool, seen map[*ssa.Func
 			}
 		}
 	case *ssa.Go:
+		if c.Spec != nil && c.Spec.GoSequential {
+			c.callEffects(ins, l, top, seen, depth)
+			return
+		}
 		l.ModAll = true
 		l.Reasons = append(l.Reasons, "go statement")
 	case *ssa.Defer:
